@@ -49,6 +49,40 @@ type c06Big struct {
 	Codec string `json:"codec"`
 	Site  string `json:"site"` // block_len, block_count, schema_len, bytes_len, meta_count, none
 	Claim int64  `json:"claim"`
+	// Items > 0: instead, a valid file of records {a: array of {x: long}} with Items,
+	// 1, Items/2 and 3 items, decoded into []*struct by a consumer that closes each
+	// record's bank; the file is read twice. (Site "count" alters the first array's
+	// item count to Claim.)
+	Items int `json:"items,omitempty"`
+}
+
+var c06ItemsTarget = spec.Struct(spec.FieldSpec{Go: "A", JSON: "a", T: spec.Slice(spec.Ptr(spec.Struct(spec.FieldSpec{Go: "X", JSON: "x", T: spec.T("int64")})))})
+
+func buildItemsFile(b c06Big) ([]byte, error) {
+	item := ref.Schema{Kind: "record", Name: "it", Fields: []ref.Field{{Name: "x", Type: ref.Prim("long")}}}
+	schema := ref.Schema{Kind: "record", Name: "many", Fields: []ref.Field{{Name: "a", Type: ref.Schema{Kind: "array", Items: &item}}}}
+	fs := ref.FileSpec{Schema: []byte(ref.Render(schema, nil)), Codec: b.Codec}
+	copy(fs.Sync[:], "0123456789abcdef")
+	for bi, n := range []int{b.Items, 1, b.Items / 2, 3} {
+		// the body by hand (a datum tree of this size would dominate the measurement)
+		count := int64(n)
+		if bi == 0 && b.Site == "count" {
+			count = b.Claim
+		}
+		body := ref.AppendLong(make([]byte, 0, 4*n+16), count)
+		if count < 0 {
+			body = ref.AppendLong(body, 1) // sized block form: the byte size follows a negative count (not checked by readers that do not skip)
+		}
+		for i := 0; i < n; i++ {
+			body = ref.AppendLong(body, int64(i*7+bi))
+		}
+		if n > 0 {
+			body = ref.AppendLong(body, 0)
+		}
+		fs.Blocks = append(fs.Blocks, ref.Block{Count: 1, Payload: body})
+	}
+	file, _, err := ref.WriteFile(fs)
+	return file, err
 }
 
 var c06BigTarget = spec.Struct(spec.FieldSpec{Go: "P", JSON: "p", T: spec.T("bytes")})
@@ -124,6 +158,20 @@ var c06Targets = []string{"Simple", "Nested", "MapShapes", "Registered", "Omit",
 // value is fine; the verdict is about panics, death, time and memory, which
 // the parent observes.
 func runC06InWorker(c c06Case) error {
+	if c.Big != nil && c.Big.Items > 0 {
+		data, err := buildItemsFile(*c.Big)
+		if err != nil {
+			return fmt.Errorf("VERIF-INCONCLUSIVE harness: %v", err)
+		}
+		typ := spec.Build(c06ItemsTarget)
+		for round := 0; round < 2; round++ {
+			_ = avro.ReadFile(bytes.NewReader(data), reflect.New(typ).Elem().Interface(), func(val unsafe.Pointer, rb *avro.ResourceBank) error {
+				rb.Close()
+				return nil
+			})
+		}
+		return nil
+	}
 	if c.Big != nil {
 		data, err := buildBigFile(*c.Big)
 		if err != nil {
@@ -239,7 +287,7 @@ func c06Verdict(w *iso.Worker, c c06Case) error {
 	limit := int64(32<<20) + 4096*int64(len(c.Data))
 	if c.Big != nil {
 		// incompressible content of known size: a handful of copies of the input is all a reader needs
-		limit = int64(64<<20) + 16*int64(c.Big.Pad)
+		limit = int64(64<<20) + 16*int64(c.Big.Pad) + 256*int64(c.Big.Items)
 	}
 	if resp.HeapGrowth > limit {
 		w.Restart()
@@ -638,6 +686,17 @@ var schemaFragments = []string{
 	`{"type":"record","name":"r","fields":[{"name":"f0","type":"array"},{"name":"f1","type":"map"},{"name":"f2","type":"fixed"},{"name":"f3","type":"record"}]}`,
 	`{"type":"record","name":"r","fields":[{"name":"id","type":"array"},{"name":"name","type":"map"},{"name":"score","type":"fixed"},{"name":"in","type":"record"},{"name":"t","type":"enum"}]}`,
 	`{"type":"record","name":"r","fields":[{"name":"id","type":["long","null","string"]},{"name":"a","type":{"type":"fixed","name":"f","size":3}},{"name":"f4","type":{"type":"fixed","name":"f","size":5}}]}`,
+	// references to named types, as other implementations write them: the specification's own
+	// recursive example, a tree through an array, a map of itself, two records referring to each
+	// other, a reference to an earlier sibling, full names, a reference to a name never defined
+	`{"type":"record","name":"LongList","fields":[{"name":"value","type":"long"},{"name":"next","type":["null","LongList"]}]}`,
+	`{"type":"record","name":"Tree","fields":[{"name":"id","type":"long"},{"name":"ins","type":{"type":"array","items":"Tree"}}]}`,
+	`{"type":"record","name":"M","namespace":"a.b","fields":[{"name":"m","type":{"type":"map","values":"a.b.M"}}]}`,
+	`{"type":"record","name":"A","fields":[{"name":"in","type":{"type":"record","name":"B","fields":[{"name":"a","type":["null","A"]},{"name":"b","type":["null","B"]}]}}]}`,
+	`{"type":"record","name":"r","fields":[{"name":"a","type":{"type":"fixed","name":"f","size":3}},{"name":"f4","type":"f"},{"name":"in","type":{"type":"record","name":"Inner","fields":[{"name":"a","type":"long"}]}},{"name":"pin","type":["null","Inner"]}]}`,
+	`{"type":"record","name":"r","fields":[{"name":"id","type":"r"}]}`,
+	`{"type":"record","name":"r","fields":[{"name":"id","type":"NeverDefined"},{"name":"name","type":["null","also.NeverDefined"]}]}`,
+	`"LongList"`, `["null","Tree"]`,
 }
 
 func drawC06Schema(t *rapid.T) c06Case {
@@ -716,6 +775,14 @@ func TestC06Big(t *testing.T) {
 			}
 		}
 	}
+	for _, items := range []int{33000, 40000, 70000, 140000} {
+		for _, codec := range []string{"null", "deflate", "snappy"} {
+			grid = append(grid, c06Big{Codec: codec, Site: "none", Items: items})
+			for _, claim := range []int64{int64(items) + 1, int64(items) * 2, 1 << 40, -int64(items)} {
+				grid = append(grid, c06Big{Codec: codec, Site: "count", Items: items, Claim: claim})
+			}
+		}
+	}
 	step, off := 1, 0
 	if !thorough() {
 		step = 9
@@ -724,6 +791,9 @@ func TestC06Big(t *testing.T) {
 	for i := off; i < len(grid); i += step {
 		b := grid[i]
 		c := c06Case{Entry: "file", What: fmt.Sprintf("%d KiB %s file, %s := %d", b.Pad>>10, b.Codec, b.Site, b.Claim), Big: &b}
+		if b.Items > 0 {
+			c.What = fmt.Sprintf("%s file of records with %d, 1, %d, 3 pointer items read twice by a consumer closing its banks, %s := %d", b.Codec, b.Items, b.Items/2, b.Site, b.Claim)
+		}
 		col.Record(c, b.Site != "none", "entry_bigfile", "big_"+b.Site)
 		if err := c06Verdict(w, c); err != nil {
 			col.Flush()
